@@ -136,6 +136,8 @@ func (fc *FCtx) lookupName(name string, env *Env) (Val, bool) {
 		return Val{T: "18446744073709551615", S: SInt}, true
 	case "T62":
 		return Val{T: "4611686018427387904", S: SInt}, true
+	case "T61":
+		return Val{T: "2305843009213693952", S: SInt}, true
 	case "TimeZero":
 		return Val{T: timeZeroNs, S: SInt}, true
 	}
@@ -601,7 +603,11 @@ func (fc *FCtx) specPureCall(name string, n *SNode, env *Env) (Val, bool) {
 		ens = append(ens, fc.specBool(en.Expr, cenv))
 	}
 	wf := []string{}
-	for _, a := range names {
+	for k, a := range names {
+		if k == rn[0] {
+			ens = append(ens, fc.U.WF(a))
+			continue
+		}
 		wf = append(wf, fc.U.WF(a))
 	}
 	fc.pureFacts = append(fc.pureFacts, implies(and(append(wf, reqs...)...), and(ens...)))
